@@ -107,6 +107,20 @@ def errClass : Err → String
   | .unitConversionNotDefined => "UnitConversionNotDefinedError"
   | .conv cls => String.ofList cls
 
+/-- the exceptions single columns of `t` would raise on their own under dispatcher `to` (each column judged by
+    itself, converter calls answered by arguments): the statement fixes no priority between the errors of different
+    columns, so an implementation converting the columns in another order may surface any of these -/
+def colErrors (conv : Conv) (to : To) (t : Convert.Tbl) (far : Nat) : List String :=
+  let go := fun (tgt : Nat → Col → Option Str) =>
+    (t.cols.zipIdx).filterMap (fun (p : Col × Nat) =>
+      match convertCol positionalAssign conv far t.index p.1 (tgt p.2 p.1) with
+      | .error e => some (errClass e)
+      | .ok _ => none)
+  match form to with
+  | .typeError => []
+  | .positional xs => if xs.length ≠ t.cols.length then [] else go (fun j _ => (xs[j]?).join)
+  | .each tgt => go tgt
+
 def handleConvert (op : String) (j : Json) : Option (Except String Json) :=
   match op with
   | "convert_units" => some do
@@ -114,20 +128,28 @@ def handleConvert (op : String) (j : Json) : Option (Except String Json) :=
     let to ← toOfJson (← j.getObjVal? "to")
     let conv ← convOfJson (← j.getObjVal? "conv")
     let dflt ← convOfJson (← j.getObjVal? "dflt")
+    let nlog ← match j.getObjVal? "conv" with
+      | .ok (.arr a) => pure a.size
+      | _ => match j.getObjVal? "dflt" with
+        | .ok (.arr a) => pure a.size
+        | _ => pure 0
     let w : World := [t]
     let (w', res) := convertUnits positionalAssign w 0 (by simp [w]) to conv dflt
     let orig := match w'[0]? with
       | some o => cvTblToJson o
       | none => Json.null
+    -- a converter call the implementation never made is answered as the pseudo-exception "<oracle-miss>": the
+    -- harness decides whether that is explained by another column's error (other order of work) or a mismatch
     let resJ ← match res with
-      | .error (.conv cls) =>
-        if cls = oracleMiss then throw "converter oracle miss: the model called the converter with arguments the implementation did not use"
-        else pure (exc (String.ofList cls))
       | .error e => pure (exc (errClass e))
       | .ok r => match w'[r]? with
         | some nt => pure (Json.mkObj [("ref", nat r), ("table", cvTblToJson nt)])
         | none => throw "dangling table reference"
-    pure (Json.mkObj [("res", resJ), ("orig", orig), ("frames", nat w'.length)])
+    let errs := match choose conv dflt with
+      | some c => colErrors c to t (nlog + 1)
+      | none => []
+    pure (Json.mkObj [("res", resJ), ("orig", orig), ("frames", nat w'.length),
+      ("col_errors", arr (errs.map Json.str))])
   | _ => none
 
 end Drv
